@@ -385,8 +385,8 @@ func (o *Out) e2eCase(r *hutil.Rng, i int, focus int) {
 		ctx, info := []byte(u.Context), mustHex(u.RawHex)
 		c.Ctx, c.Info = hex.EncodeToString(ctx), u.RawHex
 		c.Trees = decompressAll(info)
-		cls, det, dl := decodeReal(ctx, info)
-		c.Dec, c.DecErr = cls, trim(det)
+		cls, det, dl, dep := decodeAcross(ctx, info)
+		c.Dec, c.DecErr, c.ReaderDep = cls, trim(det), dep
 		if cls != hutil.OutOK {
 			c.Oracle = "the undo_log row written in phase one does not read back (" + cls + "): " + trim(det)
 			c.InModel = false
